@@ -17,7 +17,7 @@ def run(ctx, drv):
     rng = ctx.rng
     ctx.nontrivial_rule = ("reference sets (2-8 members, non-degenerate ranges, some infeasible members) and approximation sets (0-8 members "
                            "inside / outside the reference bounds, infeasible members, duplicates) in 1-5 objectives, all direction "
-                           "assignments; non-trivial = >= 2 feasible members on both sides; distinct by request line")
+                           "assignments; non-trivial = >= 2 feasible members on both sides; distinct by request line + evaluated sets sharing solution objects with the reference set; reference sets on a placeholder problem (as load_objectives builds it)")
     reqs, post = [], []
 
     def ask(line, fn):
@@ -50,8 +50,14 @@ def run(ctx, drv):
         d = rng.choice([2.0, 1.0, 2.0, 3.0])
         fresh = lambda L: [mk_sol(p, list(s.objectives), s.constraint_violation) for s in L]
 
+        # the reference front as read from an objectives file: its solutions belong to a placeholder problem (all objectives
+        # minimised, as load_objectives builds it); the evaluated set's problem carries the real declaration
+        placeholder = share == 0 and rng.random() < 0.3
+        p_ref = mk_problem(nobjs, [False] * nobjs, constrained=True) if placeholder else p
+        inp["reference_problem"] = "placeholder (all minimised), as from load_objectives" if placeholder else "the set's problem"
+
         def pair():
-            r_ = fresh(ref)
+            r_ = [mk_sol(p_ref, list(s.objectives), s.constraint_violation) for s in ref]
             if share == 1:
                 return r_, r_
             if share == 2:
